@@ -192,10 +192,10 @@ def check_layout(pi: int, slot: int, k1: int, k0: int) -> bool:
 
 
 EDITS = ['delete', 'duplicate', 'swap', 'truncate_before', 'truncate_inside', 'ins_at', 'ins_dollar', 'ins_backslash', 'ins_dquote',
-         'ins_tick', 'ins_open_comment', 'ins_close_comment', 'ins_nul', 'ins_nonascii', 'ins_hash_line', 'ins_lone_slash']
+         'ins_tick', 'ins_open_comment', 'ins_close_comment', 'ins_nul', 'ins_nonascii', 'ins_hash_line', 'ins_lone_slash', 'ins_formfeed', 'end_formfeed', 'end_nbsp']
 NE = len(EDITS)
 INS = {'ins_at': '@', 'ins_dollar': ' $ ', 'ins_backslash': '\\', 'ins_dquote': '"', 'ins_tick': "'", 'ins_open_comment': ' /* ',
-       'ins_close_comment': ' */ ', 'ins_nul': '\x00', 'ins_nonascii': ' é  ', 'ins_hash_line': ' # x\n', 'ins_lone_slash': ' // '}
+       'ins_close_comment': ' */ ', 'ins_nul': '\x00', 'ins_nonascii': ' é  ', 'ins_hash_line': ' # x\n', 'ins_lone_slash': ' // ', 'ins_formfeed': '\x0c'}
 
 
 class _Hang(Exception):
@@ -215,6 +215,9 @@ def edit(toks, slot, kind):
         ts[slot], ts[slot + 1] = ts[slot + 1], ts[slot]
     elif kind == 'truncate_before':
         ts = ts[:slot]; seps = seps[:slot]
+    elif kind in ('end_formfeed', 'end_nbsp'):
+        # the text ends in a character that str.split() takes for white space but the scanner does not (+ blanks)
+        ts = ts[:slot + 1] + [{'end_formfeed': '\x0c', 'end_nbsp': '\xa0 \n'}[kind]]; seps = seps[:slot + 1] + ['']
     elif kind == 'truncate_inside':
         ts = ts[:slot] + [ts[slot][:max(1, len(ts[slot]) // 2)]]; seps = seps[:slot + 1]
     else:
